@@ -1,3 +1,5 @@
+use core::convert::TryInto;
+
 pub fn is_odd(x: usize) -> bool {
     x % 2 == 1
 }
@@ -10,6 +12,27 @@ pub fn read_and_advance<'a>(src: &'a [u8], length: usize, index: &mut usize) -> 
     let result = read(src, length, index);
     *index += length;
     result
+}
+
+/// Like `read`, but returns `None` instead of panicking if `src` is too short.
+pub fn try_read<'a>(src: &'a [u8], length: usize, index: &usize) -> Option<&'a [u8]> {
+    src.get(*index..index.checked_add(length)?)
+}
+
+/// Like `read_and_advance`, but returns `None` instead of panicking if `src` is too short.
+pub fn try_read_and_advance<'a>(
+    src: &'a [u8],
+    length: usize,
+    index: &mut usize,
+) -> Option<&'a [u8]> {
+    let result = try_read(src, length, index)?;
+    *index += length;
+    Some(result)
+}
+
+pub fn try_read_u32_and_advance(src: &[u8], index: &mut usize) -> Option<u32> {
+    let bytes = try_read_and_advance(src, 4, index)?;
+    Some(u32::from_be_bytes(bytes.try_into().ok()?))
 }
 
 #[cfg(test)]
